@@ -1,9 +1,20 @@
-(* Props/C01.v — generated models accept every sample they were inferred from.  Statements only; proofs in Proofs/Sound.v.
-   ht = value semantics of the type IR (Sem/HasType.v).  Proved: the whole inference stage (detect, union construction,
-   field-set merge, simplification, generate) and the model-merging step (merge followed by optimize) admit every
-   object they were inferred from.  htg ... false is the strict reading in which Any admits nothing (it only ever types
-   the elements of containers observed empty); it implies ht.  The last mile (emitted text -> classes -> pydantic /
-   attrs / dataclasses acceptance) is tied by X-emit and judged by the oracle, not proved. *)
+(* Props/C01.v — generated models accept every sample they were inferred from.  Statements only; proofs in Proofs/Sound.v
+   (inference stage, one merge+optimize step) and Proofs/GraphSound.v (the registry stage).
+   ht = value semantics of the type IR relative to a model table (Sem/HasType.v); htg ... false = the strict reading in
+   which Any admits nothing (Any only ever types the elements of containers observed empty); it implies ht (C01_htg_ht).
+   MAIN THEOREM, C01_pipeline_sound: for EVERY list of well-formed samples, registry, sound + ranked replacement table, dict
+   decision, fuel, similarity oracle R and root name, if generate, process_root and merge_models succeed then every sample
+   is admitted by the final root model (TPtr (rho reps idx): the root's index followed through the recorded merges) in the
+   final graph (rho reps i = fold_left (fun i r => if memN i (snd r) then fst r else i) reps i, Proofs/GraphSound.v) —
+   including graphs made CYCLIC by merging (C01_example_root_merge_cyclic).  The proof goes by induction on
+   the size of the value, not on the graph.  The stage theorems (proc, process_root, ptr_eq_g, opt_model, merge_group,
+   merge_models; detect, mk_union, merge_field_sets, optimize, generate) are restated below; gwf / closed are invariants
+   established from the empty graph, not premises of the main theorem.
+   WHY the strict reading: under the liberal one a merge can drop List[Any] beside List[int] and lose a value
+   (C01_optimize_any_refuted, C01_merge_group_any_refuted); generate types its samples strictly, so the conclusion holds
+   for ht as well.
+   NOT PROVED: the last mile (emitted text -> classes -> pydantic / attrs / dataclasses acceptance): tied by X-emit and
+   judged by the oracle. *)
 From Coq Require Import List Bool Arith NArith.
 From J2M.Model Require Import Base Union Merge Optimize Detect.
 From J2M.Sem Require Import HasType NF.
@@ -130,4 +141,146 @@ Theorem C01_merge_opt_refuted :
          (obj_ok (fun (_ : pseudo) (_ : str) => false) (fun _ : N => None) (merge_field_sets N.eqb sets))
          objs.
 Proof. exact Sound.merge_opt_refuted. Qed.
+
+(* ---- the registry stage (Proofs/GraphSound.v) ---- *)
+From J2M.Model Require Import Registry Groups.
+From J2M.Proofs Require Import RegistryInvAux RegistryInv GraphSound.
+
+Theorem C01_pipeline_sound :
+  forall (accepts : pseudo -> str -> bool) (registry : list pseudo) (replaces : list (pseudo * pseudo))
+         (n_regex : nat) (key_matches : nat -> str -> bool) (dict_fields : list str),
+       (forall a b : pseudo, In (a, b) replaces -> forall s : str, accepts a s = true -> accepts b s = true) ->
+       forall rank : pseudo -> nat,
+       forallb (fun pq : pseudo * pseudo => pseudo_eqb (fst pq) (snd pq) || (rank (fst pq) <? rank (snd pq)))
+         replaces = true ->
+       forall (R : nat -> nat -> bool) (fuel : nat) (samples : list (list (str * json))) 
+         (fs : fields) (name : option str) (idx : N) (g1 g2 : graph) (reps : list (N * list N)),
+       Forall (fun s : list (str * json) => wf_json (JObj s) = true) samples ->
+       generate registry replaces accepts n_regex key_matches dict_fields fuel samples = Some fs ->
+       process_root fs name empty_graph = (idx, g1) ->
+       merge_models registry replaces R g1 = Some (g2, reps) ->
+       Forall (fun s : list (str * json) => ht accepts (fields_of g2) (JObj s) (TPtr (rho reps idx))) samples.
+Proof. exact GraphSound.pipeline_sound. Qed.
+
+Theorem C01_pipeline_sound_strict :
+  forall (accepts : pseudo -> str -> bool) (registry : list pseudo) (replaces : list (pseudo * pseudo))
+         (n_regex : nat) (key_matches : nat -> str -> bool) (dict_fields : list str),
+       (forall a b : pseudo, In (a, b) replaces -> forall s : str, accepts a s = true -> accepts b s = true) ->
+       forall rank : pseudo -> nat,
+       forallb (fun pq : pseudo * pseudo => pseudo_eqb (fst pq) (snd pq) || (rank (fst pq) <? rank (snd pq)))
+         replaces = true ->
+       forall (R : nat -> nat -> bool) (fuel : nat) (samples : list (list (str * json))) 
+         (fs : fields) (name : option str) (idx : N) (g1 g2 : graph) (reps : list (N * list N)),
+       Forall (fun s : list (str * json) => wf_json (JObj s) = true) samples ->
+       generate registry replaces accepts n_regex key_matches dict_fields fuel samples = Some fs ->
+       process_root fs name empty_graph = (idx, g1) ->
+       merge_models registry replaces R g1 = Some (g2, reps) ->
+       closed g2 /\
+       gwf g2 /\
+       Forall (fun s : list (str * json) => htg accepts (fields_of g2) false (JObj s) (TPtr (rho reps idx)))
+         samples.
+Proof. exact GraphSound.pipeline_sound_strict. Qed.
+
+Theorem C01_proc_sound :
+  forall (accepts : pseudo -> str -> bool) (t : ty) (par : option (N * str)) 
+         (g : graph) (t' : ty) (g' : graph),
+       proc t par g = (t', g') ->
+       okt0 t = true ->
+       ptrs_of t = nil ->
+       gwf g ->
+       (nxt g <= nxt g')%N /\
+       gwf g' /\
+       gok t' = true /\
+       (forall i : N, (i < nxt g)%N -> fields_of g' i = fields_of g i) /\
+       (forall (mf0 : N -> option fields) (uk : bool) (v : json),
+        htg accepts mf0 uk v t -> htg accepts (fields_of g') uk v t') /\
+       (forall (mf0 : N -> option fields) (v : json), ht accepts mf0 v t -> ht accepts (fields_of g') v t').
+Proof. exact GraphSound.proc_sound. Qed.
+
+Theorem C01_process_root_sound :
+  forall (accepts : pseudo -> str -> bool) (fs : fields) (name : option str) 
+         (g : graph) (idx : N) (g1 : graph),
+       process_root fs name g = (idx, g1) ->
+       okt0 (TObj fs) = true ->
+       fptrs fs = nil ->
+       closed g ->
+       gwf g ->
+       closed g1 /\
+       gwf g1 /\
+       idx = nxt g /\
+       (forall i : N, (i < nxt g)%N -> fields_of g1 i = fields_of g i) /\
+       (forall (mf0 : N -> option fields) (uk : bool) (l : list (str * json)),
+        htg accepts mf0 uk (JObj l) (TObj fs) -> htg accepts (fields_of g1) uk (JObj l) (TPtr idx)).
+Proof. exact GraphSound.process_root_sound. Qed.
+
+Theorem C01_ptr_eq_g_sound :
+  forall (accepts : pseudo -> str -> bool) (uk : bool) (g : graph),
+       gwf g ->
+       forall (fuel : nat) (i j : N),
+       ptr_eq_g g fuel i j = true ->
+       forall v : json, htg accepts (fields_of g) uk v (TPtr i) <-> htg accepts (fields_of g) uk v (TPtr j).
+Proof. exact GraphSound.ptr_eq_g_sound. Qed.
+
+Theorem C01_opt_model_sound :
+  forall (accepts : pseudo -> str -> bool) (registry : list pseudo) (replaces : list (pseudo * pseudo)),
+       (forall a b : pseudo, In (a, b) replaces -> forall s : str, accepts a s = true -> accepts b s = true) ->
+       forall rank : pseudo -> nat,
+       forallb (fun pq : pseudo * pseudo => pseudo_eqb (fst pq) (snd pq) || (rank (fst pq) <? rank (snd pq)))
+         replaces = true ->
+       forall (g : graph) (i : N) (g' : graph),
+       gwf g ->
+       opt_model registry replaces g i = Some g' ->
+       gwf g' /\
+       (forall (v : json) (t : ty),
+        htg accepts (fields_of g) false v t -> htg accepts (fields_of g') false v t).
+Proof. exact GraphSound.opt_model_sound. Qed.
+
+Theorem C01_merge_group_sound :
+  forall (accepts : pseudo -> str -> bool) (registry : list pseudo) (replaces : list (pseudo * pseudo)),
+       (forall a b : pseudo, In (a, b) replaces -> forall s : str, accepts a s = true -> accepts b s = true) ->
+       forall rank : pseudo -> nat,
+       forallb (fun pq : pseudo * pseudo => pseudo_eqb (fst pq) (snd pq) || (rank (fst pq) <? rank (snd pq)))
+         replaces = true ->
+       forall (g : graph) (mbs : list N) (g' : graph),
+       closed g ->
+       gwf g ->
+       merge_group registry replaces g mbs = Some g' ->
+       gwf g' /\
+       (forall (v : json) (t : ty),
+        htg accepts (fields_of g) false v t -> htg accepts (fields_of g') false v (rename mbs (nxt g) t)).
+Proof. exact GraphSound.merge_group_sound. Qed.
+
+Theorem C01_merge_models_sound :
+  forall (accepts : pseudo -> str -> bool) (registry : list pseudo) (replaces : list (pseudo * pseudo)),
+       (forall a b : pseudo, In (a, b) replaces -> forall s : str, accepts a s = true -> accepts b s = true) ->
+       forall rank : pseudo -> nat,
+       forallb (fun pq : pseudo * pseudo => pseudo_eqb (fst pq) (snd pq) || (rank (fst pq) <? rank (snd pq)))
+         replaces = true ->
+       forall (R : nat -> nat -> bool) (g g' : graph) (reps : list (N * list N)),
+       closed g ->
+       gwf g ->
+       merge_models registry replaces R g = Some (g', reps) ->
+       closed g' /\
+       gwf g' /\
+       (forall (v : json) (i : N),
+        htg accepts (fields_of g) false v (TPtr i) -> htg accepts (fields_of g') false v (TPtr (rho reps i))).
+Proof. exact GraphSound.merge_models_sound. Qed.
+
+Theorem C01_merge_group_any_refuted :
+  closed ExAny.g0 /\
+       gwf ExAny.g0 /\
+       merge_group nil nil ExAny.g0 (0%N :: 1%N :: nil) = Some ExAny.g0' /\
+       ht (fun (_ : pseudo) (_ : str) => false) (fields_of ExAny.g0) ExAny.v0 (TPtr 0) /\
+       ~
+       ht (fun (_ : pseudo) (_ : str) => false) (fields_of ExAny.g0') ExAny.v0
+         (rename (0%N :: 1%N :: nil) 2 (TPtr 0)).
+Proof. exact GraphSound.ExAny.merge_group_any_refuted. Qed.
+
+Theorem C01_example_sibling_merge :
+  Forall (fun s : list (str * json) => ht Ex.acc0 (fields_of Ex.g_sib) (JObj s) (TPtr 0)) Ex.samples.
+Proof. exact GraphSound.Ex.sib_sound. Qed.
+
+Theorem C01_example_root_merge_cyclic :
+  Forall (fun s : list (str * json) => ht Ex.acc0 (fields_of Ex.g_root) (JObj s) (TPtr 3)) Ex.samples.
+Proof. exact GraphSound.Ex.root_merge_sound. Qed.
 
